@@ -668,7 +668,18 @@ def c16_tree(prop, key, index, tier):
                     atoms.remove(j)
                 emptied = True
                 out.count('nested schedulers emptied between two rounds')
-            if not (emptied and rng.random() < 0.6):
+            if not emptied and rng.random() < 0.35:
+                # every count stays what it was: one requirement of a job is
+                # replaced by another one (possibly dangling), a job is replaced
+                # by a new one with as many requirements
+                for j in rng.sample(jobs, min(len(jobs), rng.randint(1, 2))):
+                    if j.required:
+                        gone = rng.choice(sorted(j.required, key=lambda x: x.name))
+                        new_r = rng.choice([r for r in pool if r is not j and r not in j.required] or [gone])
+                        j.requires(gone, remove=True)
+                        j.required.add(new_r)
+                out.count('second rounds in which requirements were replaced one for one')
+            elif not (emptied and rng.random() < 0.6):
                 # second round on the same objects: new requirements, some dangling, appear
                 for j in rng.sample(jobs, min(len(jobs), rng.randint(1, 3))):
                     r = rng.choice(pool)
@@ -732,7 +743,18 @@ def _check_queries(out, sched, req, members, forever, starts_list, where, exits_
     if exits_first:
         out.count('entry/exit asked first after an edit')
         _check_entry_exit(out, sched, req, members, forever, succ, where)
-    for starts in starts_list:
+    inner_scheds = [j for j in sched.jobs if hasattr(j, 'jobs')]
+    for k, starts in enumerate(starts_list):
+        if inner_scheds and k % 3 == 1:
+            # between two questions to this scheduler, one question to a nested
+            # member about its own jobs (each level answers for itself)
+            ns = inner_scheds[k % len(inner_scheds)]
+            probe = next(iter(ns.jobs), None) or next(iter(sched.jobs))
+            try:
+                ns.successors_downstream(probe)
+                out.count('closure queries put to a nested member in between')
+            except BaseException as exc:                # noqa
+                out.violation('query-raised', "%s: nested %s.successors_downstream() raised %r" % (where, ns, exc))
         objs = [by[s] for s in starts]
         exp = {
             'predecessors': set().union(*[rq[s] for s in starts]),
@@ -1400,7 +1422,29 @@ def c18_history(prop, key, index, tier):
         if rng.random() < 0.4:
             # ... and a manual edit of the graph afterwards
             cands = [(a, b) for a in mem for b in req[a]]
-            if cands and rng.random() < 0.6:
+            swapped = False
+            if cands and len(mem) >= 3 and rng.random() < 0.4:
+                # one requirement replaced by another: same jobs, same number
+                # of requirements per job, a different graph
+                a, b = rng.choice(cands)
+                others = [c for c in mem if c not in (a, b) and c not in req[a]]
+                rng.shuffle(others)
+                for c in others:
+                    trial = {k: set(v) for k, v in req.items()}
+                    trial[a].discard(b)
+                    trial[a].add(c)
+                    if R.is_acyclic(trial, members):
+                        req[a].discard(b)
+                        req[a].add(c)
+                        jobs[a].requires(jobs[b], remove=True)
+                        jobs[a].requires(jobs[c])
+                        log.append('%s: requirement %s replaced by %s' % (a, b, c))
+                        out.count('requirements replaced one for one between surgery operations')
+                        swapped = True
+                        break
+            if swapped:
+                pass
+            elif cands and rng.random() < 0.6:
                 a, b = rng.choice(cands)
                 req[a].discard(b)
                 jobs[a].requires(jobs[b], remove=True)
@@ -1608,7 +1652,7 @@ def c19_program(prop, key, index, tier):
 
     nsteps = rng.randint(3, 12)
     ops = ['job', 'job', 'job', 'seq', 'seq', 'append', 'append', 'requires', 'requires', 'remove',
-           'sched', 'add', 'update', 'seqreq', 'seqasreq', 'nest', 'nest', 'leave', 'look']
+           'sched', 'add', 'update', 'seqreq', 'seqasreq', 'nest', 'nest', 'leave', 'look', 'ran']
     for step in range(nsteps):
         op = rng.choice(ops)
         desc = None
@@ -1766,6 +1810,22 @@ def c19_program(prop, key, index, tier):
                 desc = "%s.add(%s)" % (sc, x)
                 real[sc].add(real[x])
                 model[sc].jobs.update(m_flat([model[x]]))
+            elif op == 'ran':
+                # a job without requirements is run to completion on its own (in a
+                # throw-away scheduler) before the construction goes on
+                cands = [n for n in names_ if n[0] == 'j' and not real[n].required and not real[n].is_done()]
+                if not cands:
+                    continue
+                j = rng.choice(cands)
+                desc = "PureScheduler(%s).run()" % j
+                import asyncio
+                loop = asyncio.new_event_loop()
+                try:
+                    with contextlib.redirect_stdout(io.StringIO()):
+                        loop.run_until_complete(asyncio.wait_for(PureScheduler(real[j]).co_run(), 60))
+                finally:
+                    loop.close()
+                out.count('jobs run to completion before being used in further statements')
             elif op == 'leave':
                 # a job leaves a scheduler (its requirements are its own business)
                 sc = pick('Sn', False)
